@@ -195,6 +195,12 @@ pub(crate) fn stub_format(_a: std::fmt::Arguments<'_>) -> String {
 pub(crate) fn stub_mem_hints(_ax: &Axecutor, _a: u64, _l: u64, _o: String) -> AxError {
     AxError::from("mem")
 }
+pub(crate) fn stub_axerror_fmt(_e: &AxError, _f: &mut std::fmt::Formatter<'_>) -> std::fmt::Result {
+    Ok(())
+}
+pub(crate) fn stub_from_box_error(_e: Box<dyn std::error::Error>) -> AxError {
+    AxError::from("hook error")
+}
 pub(crate) fn stub_lower(_s: &str) -> String {
     String::new()
 }
